@@ -120,6 +120,8 @@ def digest(f):
                 while k is not None and k["k"] in ("ParenExpr", "ImplicitCastExpr", "CStyleCastExpr"):
                     k = k["c"][0]
                 out["sets"].append((f.unit, name, tname(c["c"][1]), (k or {}).get("tc"), render(c["c"][2])[:50], c["l"]))
+            if cal == "emitSetFileIdName":
+                out.setdefault("idsets", []).append((f.unit, name, c["l"]))
             if cal in AMBIENT and name not in AMBIENT:
                 out["ambient"].append((f.unit, name, cal, c["l"]))
             if cal == "lisort" and len(c["c"]) >= 5:
@@ -213,6 +215,28 @@ def d5(rep):
             rep.ok("D5", key)
         else:
             rep.violation("D5", key, where, "libPutHeader writes hdr.%s but libNewHeader does not assign it" % fld)
+
+
+def d6(rep, dig):
+    """emitSetFileIdName sets the unit id for the whole invocation (-Wname).  Only the command-line parser may call it: a phase that
+    sets it while compiling one file (restoring the id of a saved unit) changes the names generated for every later file of the
+    same command, so `aldor a.ao b.as` and `aldor b.as` write different b.c."""
+    n = 0
+    sites = []
+    for u in sorted(dig):
+        for unit, func, line in dig[u].get("idsets", []):
+            sites.append((unit, func, line))
+    for unit, func, line in sites:
+        n += 1
+        key = "invocation-wide-id-set:%s:%s" % (unit, func)
+        if unit == "cmdline.c":
+            rep.ok("D6", key)
+        else:
+            rep.violation("D6", key, "%s:%d (%s)" % (unit, line, func),
+                          "emitSetFileIdName (the invocation-wide unit id behind -Wname) is called while a file is being compiled: the id "
+                          "stays in force for the files that follow on the command line, whose generated names then depend on what "
+                          "was compiled before them")
+    rep.floor("callers of emitSetFileIdName", n, 1)
 
 
 def run(tier, only=None):
@@ -359,6 +383,7 @@ def run(tier, only=None):
                           "`aldor a.as b.as` and `aldor b.as` can write different files for b.as" % (v, ", ".join(f for _, f in sites[:3])))
     rep.floor("monotone never-reset integer counters examined", nc, 15)
     d5(rep)
+    d6(rep, dig)
     rep.assumptions += ["calls through function pointers are not followed in D3",
                         "lisort is the only sort routine applied to output-relevant data (no qsort in the compiler units)"]
     return rep
